@@ -270,7 +270,7 @@ func (c *c20) Run(ctx *RunCtx) *RunResult {
 	}
 	emptyDirs(tree)
 	all := append(append([]string{}, fileList...), dirList...)
-	simrt.Reset(1, soloPlan(t, c.spawns, 400), 1)
+	simrt.Reset(1, soloPlan(t, treeSpawnsCached(c.env), 400), 1)
 	simrt.Solo()
 	evh := hashStr(strings.Join(all, "|"))
 	sig := []uint64{evh}
